@@ -74,8 +74,37 @@ def term_attr(kind):
     def f(ip, s):
         vc = ip.vc
         n = vc.choose(3, kind)          # 0, 1 or 2 objects
-        return PList([mk_obj(vc, f"{kind}{k}") for k in range(n)])
+        objs = [mk_obj(vc, f"{kind}{k}") for k in range(n)]
+        vc.ghost.setdefault("_term_objs", {})[kind] = objs      # (for the documented key, see _key_spec)
+        return PList(objs)
     return f
+
+
+# --- the documented key of a term (what "every term lands in the part its key describes" means) ------
+def _conc(ip, v):
+    return ip.vc.concretize(v) if isinstance(v, Sym) else v
+
+
+def _block(ip, o):
+    sp, sn = _conc(ip, o.f["space"]), _conc(ip, o.f["spin"])
+    return sp if all(c == "n" for c in sn) else f"{sp}_{sn}"
+
+
+def _key_spec(ip, sorter, t_name, frame_target):
+    objs = ip.vc.ghost.get("_term_objs", {})
+    if sorter == "by_delta_types":
+        # one entry per delta occurrence (a squared delta counts twice): its space / spin block
+        key = sorted(_block(ip, d) for d in objs.get("delta", []) for _ in range(d.f["exponent"]))
+        return tuple(key) or ("none",)
+    if sorter == "by_delta_indices":
+        key = sorted("".join(_name_of(ip, s_) for s_ in d.f["idx"]) for d in objs.get("delta", [])
+                     for _ in range(d.f["exponent"]))
+        return tuple(key) or ("none",)
+    if sorter == "by_tensor_block":
+        key = sorted(_block(ip, o) for o in objs.get("tensor", []) if _conc(ip, o.f["name"]) == t_name
+                     for _ in range(o.f["exponent"]))
+        return tuple(key) or ("none",)
+    return None     # target index sorters: key meaning only in the bounded stand-in
 
 
 def term_target(ip, s):
@@ -137,6 +166,13 @@ def _capture(ip, key):
     arr = ip.vc.ghost.get("_sort_arr")
     if k is not None and arr is not None:
         ip.vc.assume(KEYOF(arr, k) == keystr(ip.hashable(key)))
+    who = ip.vc.ghost.get("_sorter")
+    if who is not None and not ip.vc.ghost.get("_key_checked"):
+        spec = _key_spec(ip, who[0], who[1], None)
+        if spec is not None:
+            ip.vc.ghost["_key_checked"] = True
+            ip.vc.check("key#the-bucket-key-lists-the-block-of-every-occurrence-with-its-multiplicity",
+                        ip.hashable(key) == spec)
 
 
 def _wrap_capture(fn):
@@ -205,6 +241,7 @@ class _Sorter(Contract):
             a["t_name"] = "V"
         # ghost: the key the code computes in iteration k *is* KEYOF(k)
         vc.ghost["_sort_arr"] = terms.arrs[0]
+        vc.ghost["_sorter"] = (self.key.split(":")[1], a.get("t_name"))
         return a
 
     def raises(self, vc, a):
